@@ -57,8 +57,11 @@ def _describe_exc(e):
     from pybtex.errors import format_error
     try:
         fname = e.get_filename()
+        plain = str(e)
         text = format_error(e, 'ERROR: ')
         last = text.split('\n')[-1]
+        if not last.endswith(plain):
+            return [[fname] if fname is not None else [], -3, [text]]
         pre = (fname + ': ') if fname else ''
         if not last.startswith(pre):
             return [[fname] if fname is not None else [], -3, [text]]
@@ -192,28 +195,43 @@ def canon(fn, r):
 # ----------------------------------------------------------------------------------------
 # the oracle: the property text, re-implemented in plain Python, on the implementation's output
 HEADS = ['\\citation{', '\\bibdata{', '\\bibstyle{', '\\@input{']
+def _ref_lines(content):
+    """the lines of a text file as the file object yields them: a line ends at \\n, \\r\\n or \\r
+    and NOWHERE else (form feed, \\x0b, \\x1c-\\x1e, U+0085, U+2028, U+2029 are ordinary characters)"""
+    lines = re.split('\r\n|\r|\n', content)
+    if lines and lines[-1] == '':
+        lines.pop()
+    return lines
+
+def _balanced(v):
+    d = 0
+    for c in v:
+        if c == '{':
+            d += 1
+        elif c == '}':
+            d -= 1
+            if d < 0:
+                return False
+    return d == 0
+
 def _clean_lines(content):
     """the reference reader's view of one file: per line (command index or None, value).
     A command line is a line that STARTS (column 0) with \\citation{ / \\bibdata{ / \\bibstyle{ / \\@input{ ;
     every other line -- whatever it contains, also command-looking text after a comment sign, after
-    spaces or tabs, or inside another TeX command -- is ignored ("every other line ignored").
-    None when the text of the property does not say how the file is to be read: a line end other than
-    \\n, characters outside printable ASCII + tab, or a command line whose value is not a plain brace-free
-    text closed by the one '}' that ends the line."""
-    if '\r' in content or any((ord(c) < 32 and c not in '\n\t') or ord(c) > 126 for c in content):
-        return None
-    lines = content.split('\n')
-    if lines and lines[-1] == '':
-        lines.pop()
+    spaces or tabs, inside another TeX command, or after a character that str.splitlines (but not a
+    file object) takes for a line end -- is ignored ("every other line ignored").
+    None when the text of the property does not say how the file is to be read: a command line that is
+    not exactly  head + value + '}'  with a brace-balanced value (then the TeX argument and the greedy
+    regex agree on the value)."""
     out = []
-    for ln in lines:
+    for ln in _ref_lines(content):
         k = next((k for k, h in enumerate(HEADS) if ln.startswith(h)), None)
         if k is None:
             out.append((None, ln)); continue
         if not ln.endswith('}'):
             return None
         v = ln[len(HEADS[k]):-1]
-        if '{' in v or '}' in v or '\\' in v:
+        if not _balanced(v):
             return None
         out.append((k, v))
     return out
@@ -250,6 +268,7 @@ def oracle_parse(mode, files, out):
         return None
     cits = []; style = None; data = None
     need = {}; allow = {}        # loc -> number of reports demanded / permitted
+    pairs = {}                   # citation loc -> [(key, earlier different spellings)]
     first_problem = None
     spellings = {}               # lower-cased key -> set of spellings seen so far
     for idx, (f, i, k, v) in enumerate(visits):
@@ -260,6 +279,7 @@ def oracle_parse(mode, files, out):
                 seen = spellings.setdefault(key.lower(), [])
                 if any(s != key for s in seen):
                     later += 1
+                    pairs.setdefault(loc, []).append((key, sorted(set(x for x in seen if x != key))))
                     if len(set(seen)) == 1 and key not in seen:
                         firsts += 1          # the second spelling of this key appears here
                 seen.append(key)
@@ -295,6 +315,12 @@ def oracle_parse(mode, files, out):
         m = bad_report(e)
         if m:
             return m
+        # a report located at a \\citation line is about a key cited in two spellings: its text names both
+        loc = (S(e[0][0]) if e[0] else None, e[1])
+        if loc in pairs and e[2] and isinstance(e[2][0], list):
+            msgline = S(e[2][0]).split('\n')[-1]
+            if not any(key in msgline and any(p in msgline for p in prevs) for key, prevs in pairs[loc]):
+                return 'the report at %s line %d does not name both spellings (%r): %r' % (loc[0], loc[1], pairs[loc][:2], msgline)
     if mode == 1 and first_problem is not None:
         if out[0] != 1:
             return 'strict mode: the problem at %s line %d was not raised' % first_problem
@@ -387,12 +413,21 @@ C_FIXED = '\\bibstyle{v}\n\\citation{a,c}\n'
 GHOST = ['%\\bibdata{old}', '  \\bibstyle{s2}', '\\@writefile{toc}{\\citation{x}}', '\\gdef\\x{\\citation{A}}',
          '\t\\citation{z}', '% \\@input{b.aux}', '\\relax\\bibdata{g2}', ' \\@input{nosuch.aux}']
 MENU_G = MENU[:7] + [MENU[8]] + GHOST
+# the characters str.splitlines() takes for line ends although a file object does not
+SEPS = ['\x0b', '\x0c', '\x1c', '\x1d', '\x1e', '\x85', '\u2028', '\u2029']
+def menu_sep(c):
+    return ['\\bibstyle{s}', '\\bibstyle{t}', '\\bibdata{d}', '\\citation{a}',
+            '\\relax' + c + '\\citation{g}', '%' + c + '\\bibstyle{u}', '\\citation{a' + c + 'b,A' + c + 'b}']
+MENU_T3 = ['\\bibstyle{s}', '\\bibstyle{t}', '\\bibdata{d,e}', '\\citation{a}', '\\citation{A,b}', '\\relax']
+# keys / names that are format templates or TeX: reports must still render and name both spellings
+MENU_BR = ['\\bibstyle{s{0}}', '\\bibstyle{t%s}', '\\bibdata{d{b},e\\f,{0}}', '\\citation{Foo{x}}', '\\citation{foo{x}}',
+           '\\citation{Baz{0},baz{0}}', '\\citation{%s,%S}', '\\citation{a\\b,A\\b,{}}']
 
 def doc(lines, term='\n'):
     return ''.join(l + term for l in lines)
 
-KEYS = ['k1', 'K1', 'key', 'Key', 'KEY', 'kEy', 'b', 'B', '*', 'x y', 'Knuth:1984', 'knuth:1984', 'a_b', 'A_b', '', ' a', '\u20ac', 'z9']
-OTHER = GHOST[:6] + ['\\relax ', '\\newlabel{sec:1}{{1}{1}}', '\\bibcite{k1}{1}', '', '% \\citation{c}', ' \\citation{z}', '\\citationx{q}',
+KEYS = ['Foo{x}', 'foo{x}', 'Baz{0}', 'baz{0}', '%s', '%S', 'a\\b', 'A\\b', 'k1', 'K1', 'key', 'Key', 'KEY', 'kEy', 'b', 'B', '*', 'x y', 'Knuth:1984', 'knuth:1984', 'a_b', 'A_b', '', ' a', '\u20ac', 'z9']
+OTHER = GHOST[:6] + ['\\relax\x0c\\citation{g}', '%\u2028\\bibstyle{u}', '\\relax\x85\\bibdata{q}', '\\relax\x1c\\citation{h}'] + ['\\relax ', '\\newlabel{sec:1}{{1}{1}}', '\\bibcite{k1}{1}', '', '% \\citation{c}', ' \\citation{z}', '\\citationx{q}',
          '\\bibstyle {s}', '\\Citation{a}', '\\providecommand\\hyper@newdestlabel[2]{}', '\\@writefile{toc}{\\contentsline {section}{\\numberline {1}Intro}{1}{}}',
          '\\gdef \\@abspage@last{1}', '\\input{b.aux}', 'citation{a}', '\\\\citation{a}']
 ODD = ['\\citation{a}% }', '\\citation{a', '\\@input{', '\\bibstyle{a}\\bibdata{b}', '\\citation{a}\x0b\\bibstyle{z}', '\\citation{{a}}',
@@ -402,17 +437,17 @@ ODD = ['\\citation{a}% }', '\\citation{a', '\\@input{', '\\bibstyle{a}\\bibdata{
 def rand_line(rng, names, me, odd):
     r = rng.random()
     if r < 0.45:
-        ks = [rng.choice(KEYS[:12] if not odd else KEYS) for _ in range(rng.choice([1, 1, 1, 2, 3]))]
+        ks = [rng.choice(KEYS[:20] if not odd else KEYS) for _ in range(rng.choice([1, 1, 1, 2, 3]))]
         return '\\citation{%s}' % ','.join(ks)
     if r < 0.55:
-        return '\\bibstyle{%s}' % rng.choice(['plain', 'alpha', 'unsrt', 's'])
+        return '\\bibstyle{%s}' % rng.choice(['plain', 'alpha', 'unsrt', 's', 'st{0}', 'a%s'])
     if r < 0.65:
-        return '\\bibdata{%s}' % ','.join(rng.choice(['refs', 'extra', 'db/main', 'x']) for _ in range(rng.choice([1, 1, 2, 3])))
+        return '\\bibdata{%s}' % ','.join(rng.choice(['refs', 'extra', 'db/main', 'x', 'r{e}f', 'x\\y']) for _ in range(rng.choice([1, 1, 2, 3])))
     if r < 0.75 and names:
         return '\\@input{%s}' % rng.choice(names)
     if odd and r < 0.85:
         return rng.choice(ODD)
-    return rng.choice(OTHER if odd else OTHER[:10])
+    return rng.choice(OTHER if odd else OTHER[:14])
 
 def rand_tree(rng, odd=False):
     """1..4 files; file i inputs only files j > i (acyclic) unless odd"""
@@ -504,6 +539,34 @@ def gen(tier, rng):
             files = [[TOP, doc(ls)]] + ([['b.aux', SUBS[2]]] if MENU[8] in ls else [])
             for mode in ((0, 1, 2) if n <= 3 else (0,)):
                 yield ('exhaustive_ghost', 1, [mode, files])
+    # -- exhaustive with each splitlines-only separator inside unrelated lines (before command-looking text) and inside keys
+    for c in SEPS:
+        menu = menu_sep(c)
+        for n in range(1, 4):
+            for ls in itertools.product(menu, repeat=n):
+                if not any(c in l for l in ls):
+                    continue
+                for mode in ((0, 1, 2) if quick or n < 3 else (0, 1, 2)):
+                    yield ('exhaustive_separators', 1, [mode, [[TOP, doc(ls)]]])
+    # -- exhaustive over line terminators: \\r only, \\r\\n, mixed, last line unterminated
+    for n in range(1, 4 if quick else 5):
+        for ls in itertools.product(MENU_T3, repeat=n):
+            for tv in range(4):
+                if tv == 0:
+                    content = doc(ls, '\r')
+                elif tv == 1:
+                    content = doc(ls, '\r\n')
+                elif tv == 2:
+                    content = ''.join(l + ['\r', '\n', '\r\n'][i % 3] for i, l in enumerate(ls))
+                else:
+                    content = '\r'.join(ls)
+                for mode in (0, 1, 2):
+                    yield ('exhaustive_terminators', 1, [mode, [[TOP, content]]])
+    # -- exhaustive over keys and names with braces, {0}, %s, backslashes
+    for n in range(1, 4 if quick else 5):
+        for ls in itertools.product(MENU_BR, repeat=n):
+            for mode in (0, 1, 2):
+                yield ('exhaustive_braces', 1, [mode, [[TOP, doc(ls)]]])
     # -- exhaustive nesting: a.aux -> b.aux -> c.aux | a.aux | b.aux
     NT, NB = (3, 2) if quick else (3, 3)
     for n in range(1, NT + 1):
